@@ -115,6 +115,40 @@ def gen_c05(rng, tier):
             c.model = n <= 16385
             out.append(c)
             k += 1
+    # occurrences of one symbol in clusters separated by gaps of several superblocks; totals at
+    # and around multiples of the select sampling period (8192), with a long gap right after
+    for kind in ["rsq256", "rsq512"]:
+        sb = 2048 if kind == "rsq256" else 4096
+        shapes = [
+            [(300, 3 * sb), (1, 5 * sb), (40, 0)],                       # last occurrence before an empty stretch
+            [(8192, 4 * sb), (5, 0)],                                    # exactly one period, then a gap
+            [(8192, 0)],                                                 # total = one period exactly
+            [(8191, 3 * sb), (1, 3 * sb), (8192, 6 * sb), (3, 0)],
+            [(100, 2 * sb + 7), (100, 2 * sb), (100, 7 * sb + 1), (100, 0)],
+        ]
+        if tier == "thorough":
+            shapes += [[(rng.choice([1, 50, 8191, 8192, 8193]), rng.choice([0, sb, 2 * sb, 3 * sb + 1, 9 * sb])) for _ in range(5)] for _ in range(10)]
+        for sh in shapes:
+            sym = rng.randrange(4)
+            other = [x for x in range(4) if x != sym]
+            s = []
+            for (cnt, gap) in sh:
+                if rng.random() < 0.5:
+                    s += [sym] * cnt
+                else:
+                    for _ in range(cnt):
+                        s += [sym] + [rng.choice(other)] * rng.randrange(0, 2)
+                s += [rng.choice(other) for _ in range(gap)]
+            n = len(s)
+            c = Case("c05-gap%d" % k, tags=dict(kind=kind, n=n, mix="clusters+gaps", shape=str(sh)[:70], cost=n * 30))
+            k += 1
+            c.add(C.new_line(kind, "u64", "new", s))
+            c.add("Q len")
+            for q in range(4):
+                c.add("Q selectall %d %d" % (q, s.count(q) + 1))
+            c.add("Q rankall %d" % sym)
+            c.model = n <= 45000
+            out.append(c)
     for kind in ["rsq256", "rsq512"]:
         c = Case("c05-default-%s" % kind, tags=dict(kind=kind, path="default", trivial=True))
         c.add("NEW %s u64 default 0" % kind)
@@ -157,6 +191,19 @@ def gen_c01(rng, tier):
         c.model = c.tags["n"] <= 5000 and not kind.endswith("pfs") or c.tags["n"] <= 5000
         out.append(c)
         k += 1
+    # symbols that need more than 32 / 64 bits, every alias
+    for kind in QWT_KINDS:
+        for elem, pool in [("u64", [2 ** 32, 2 ** 32 + 1, 2 ** 63, 2 ** 64 - 1, 7, 2 ** 40 + 3]),
+                           ("u128", [2 ** 64, 2 ** 64 + 5, 2 ** 100, 2 ** 127, 2 ** 128 - 1, 5, 2 ** 64 - 1, 2 ** 65 + 2 ** 3]),
+                           ("usize", [2 ** 63 + 1, 2 ** 33, 1, 0])]:
+            n = rng.choice([7, 300, 1500])
+            seq = [rng.choice(pool) for _ in range(n)]
+            c = Case("c01-wide%d" % k, tags=dict(kind=kind, elem=elem, n=n, maxsym_bits=max(seq).bit_length(), mix="wide", cost=n * 1500))
+            k += 1
+            c.add(C.new_line(kind, elem, rng.choice(["new", "from", "collect"]), seq))
+            C.tree_queries(c, rng, seq, WIDTH[elem], "q", sweep=(n <= 300))
+            c.model = n <= 300
+            out.append(c)
     for kind in QWT_KINDS:
         for elem in ["u8", "u128"]:
             c = Case("c01-empty-%s-%s" % (kind, elem), tags=dict(kind=kind, elem=elem, n=0, trivial=True))
@@ -212,6 +259,22 @@ def gen_c02(rng, tier):
     # alphabet sizes not of the form 3k+1 (incomplete 4-ary trees), deep codes
     for a in [2, 3, 5, 6, 8, 9, 11, 12, 14, 20, 33]:
         c = huff_case(rng, "c02-a%d" % a, rng.choice(HQ_KINDS), "u16", tier, "hq", n=rng.choice([200, 700, 1500]), alpha_size=a, mix=rng.choice(["fib", "uniform", "geometric"]))
+        out.append(c)
+    # strongly skewed profiles: codes of 9 and more fragments (deep trees)
+    for kk, (ratio, nsym) in enumerate([(2.0, 31), (2.2, 28), (1.8, 34)]):
+        counts = [max(1, int(ratio ** (j / 3.0))) for j in range(nsym)]
+        seq = []
+        for sym, cnt in enumerate(counts):
+            seq += [sym * 3 + 1] * cnt
+        rng.shuffle(seq)
+        kind = HQ_KINDS[kk % 4]
+        c = Case("c02-deep%d" % kk, tags=dict(kind=kind, elem="u16", n=len(seq), alphabet=nsym, mix="deep", cost=len(seq) * 200))
+        c.add(C.new_line(kind, "u16", "new", seq))
+        c.add("Q codes")
+        c.add("Q nlevels")
+        C.tree_queries(c, rng, seq, 16, "hq", sweep=False, nsyms=nsym)
+        c.seq = seq
+        c.model = len(seq) <= 6000
         out.append(c)
     for kind in HQ_KINDS:
         c = Case("c02-empty-%s" % kind, tags=dict(kind=kind, n=0, trivial=True))
@@ -383,6 +446,30 @@ def gen_c07(rng, tier):
             c.model = n <= 120000
             out.append(c)
             k += 1
+    # a (partial or full) group whose span last - first is exactly 65535 / 65536 / 65537
+    for size in [2, 33, 65, 97, 1024, 1025]:
+        for span in [65535, 65536, 65537]:
+            for invert in [False, True]:
+                first = rng.choice([0, 7, 64, 700])
+                inner = sorted(rng.sample(range(first + 1, first + span), min(size, 1024) - 2)) if size > 2 else []
+                pos = [first] + inner + [first + span]
+                if size == 1025:
+                    pos = pos + [first + span + 5]
+                n = pos[-1] + 1 + rng.randrange(0, 70)
+                bits = [0] * n
+                for q in pos:
+                    bits[q] = 1
+                if invert:
+                    bits = [1 - b for b in bits]
+                kind = "darray1"
+                ones = sum(bits)
+                c = Case("c07-thr%d" % k, tags=dict(kind=kind, n=n, ones=ones, shape="span=%d size=%d" % (span, size), invert=invert, cost=n // 4))
+                k += 1
+                c.add(C.bits_line(kind, rng.choice(["bits", "new"]), bits))
+                c.add("Q select1all %d" % (ones + 1))
+                c.add("Q select0all %d" % (n - ones + 1))
+                c.model = (size <= 65) and not invert
+                out.append(c)
     for n in [0, 1, 5, 64, 65, 600]:
         bits, mix = C.gen_bits(rng, n)
         for kind in ["darray0", "darray1"]:
@@ -723,6 +810,36 @@ def gen_c11(rng, tier):
         c.add("SER")
         c.model = c.tags.get("n", 0) <= 1100
         out.append(c)
+    return out + gen_c11_empties(rng)
+
+
+def gen_c11_empties(rng):
+    out = []
+    k = 0
+    for kind in QWT_KINDS + HQ_KINDS + ["wt", "hwt"]:
+        for path in ["new", "default"]:
+            c = Case("c11-empty%d" % k, tags=dict(kind=kind, n=0, path=path, trivial=True))
+            k += 1
+            c.add("NEW %s %s %s 0" % (kind, rng.choice(ELEMS), path))
+            if kind.startswith("hq") or kind == "hwt":
+                c.add("Q codes")
+            for q in ["Q len", "Q get 0", "Q rank 0 0", "Q select 0 0"]:
+                c.add(q)
+            c.add("SER"); c.add("RT")
+            for q in ["Q len", "Q get 0", "Q rank 0 0", "Q select 0 0"]:
+                c.add(q)
+            c.add("SER")
+            out.append(c)
+    for kind in ["rsq256", "rsq512", "qv"]:
+        c = Case("c11-empty%d" % k, tags=dict(kind=kind, n=0, trivial=True)); k += 1
+        c.add("NEW %s u64 %s 0" % (kind, rng.choice(["default", "collect"])))
+        c.add("SER"); c.add("RT"); c.add("Q len"); c.add("Q get 0"); c.add("SER")
+        out.append(c)
+    for kind in ["rsn", "rsw", "darray0", "darray1", "bv", "bvm"]:
+        c = Case("c11-empty%d" % k, tags=dict(kind=kind, n=0, trivial=True)); k += 1
+        c.add("NEW %s - default 0 -" % kind)
+        c.add("SER"); c.add("RT"); c.add("Q get 0"); c.add("SER")
+        out.append(c)
     return out
 
 
@@ -812,6 +929,15 @@ def gen_c17(rng, tier):
             for b in range(8):
                 w |= rng.choice([0, 0xFF, 0x80, 0x01, rng.getrandbits(8)]) << (8 * b)
         words.append(w)
+    sweep = Case("c17-selword-bytes", tags=dict(kind="select_in_word", mix="every byte value x every in-byte rank x 3 byte positions"))
+    for b in range(256):
+        pcb = bin(b).count("1")
+        for r in range(pcb):
+            for j in (0, 3, 7):
+                sweep.add("FN selword %d %d" % (b << (8 * j), r))
+                low = (1 << (8 * j)) - 1
+                sweep.add("FN selword %d %d" % ((b << (8 * j)) | low, 8 * j + r))
+    out.append(sweep)
     for w in words:
         pc = bin(w).count("1")
         for kq in sorted(set([0, pc - 1 if pc else 0, pc, min(pc + 1, 63), 63, rng.randrange(64)])):
@@ -986,6 +1112,10 @@ def gen_c19(rng, tier):
             if bits and bits[-1] == 1:
                 c.add("NEW %s - pos %d %s" % (kind, len(pos), " ".join(map(str, pos)))); c.add("EQ a")
         c.add("CLONE"); c.add("EQ a")
+        # the same bits followed by zeros inside the same line / word: a different sequence
+        for extra in [1, 3, 64]:
+            b3 = bits + [0] * extra
+            c.add(C.bits_line(kind, "new" if kind in ("rsn", "rsw") or kind.startswith("darray") else "bits", b3)); c.add("EQ a")
         if n:
             b2 = list(bits); b2[rng.randrange(n)] ^= 1
             c.add(C.bits_line(kind, "new" if kind in ("rsn", "rsw") or kind.startswith("darray") else "bits", b2)); c.add("EQ a")
@@ -1171,6 +1301,25 @@ def gen_c16(rng, tier):
         c.lines = [l for l in c.lines if l.startswith("NEW") or l == "Q codes"] + ["SPACE"]
         c.model = c.tags.get("n", 0) <= 5000
         out.append(c)
+    return out + gen_c16_sparse(rng)
+
+
+def gen_c16_sparse(rng):
+    out = []
+    for k, (ones, gap) in enumerate([(2000, 100), (1500, 80), (5000, 70), (1024, 65)]):
+        for kind in ["darray0", "darray1"]:
+            pos = []
+            p = 0
+            for _ in range(ones):
+                p += rng.randrange(gap, gap + 20)
+                pos.append(p)
+            c = Case("c16-sparse%d-%s" % (k, kind), tags=dict(kind=kind, n=pos[-1] + 1, mix="sparse positions", cost=1000))
+            c.fam = "da"
+            c.seq = []
+            c.add("NEW %s - pos %d %s" % (kind, len(pos), " ".join(map(str, pos))))
+            c.add("SPACE")
+            c.model = False
+            out.append(c)
     return out
 
 
